@@ -389,7 +389,7 @@ func (a *Allocation) packetConnHandler(manager *Manager) {
 	for {
 		n, srcAddr, err := a.relayPacketConn.ReadFrom(buffer)
 		if err != nil {
-			manager.DeleteAllocation(a.fiveTuple)
+			manager.deleteAllocation(a.fiveTuple, a)
 
 			return
 		}
@@ -454,7 +454,7 @@ func (a *Allocation) connHandler(manager *Manager) {
 	for {
 		conn, err := a.relayListener.Accept()
 		if err != nil {
-			manager.DeleteAllocation(a.fiveTuple)
+			manager.deleteAllocation(a.fiveTuple, a)
 
 			return
 		}
